@@ -7,7 +7,7 @@ Require Import EV.model.Chan EV.proofs.ChanP EV.gen.Facts.
 (* the configuration of the channel model as read off the source by tools/gen_facts.py; the shape facts say that
    the functions the model's atomic steps stand for still have the modelled structure *)
 Definition chan_cfg : ccfg := {| setcb_atomic := chan_setcb_atomic && chan_receiver_locked |}.
-Lemma C03_cfg_ok : cfg_ok chan_cfg /\ chan_receive_shape_ok = true /\ chan_local_receive_shape_ok = true /\ chan_local_close_order_ok = true /\ chan_setcb_handles_concurrent_close = true /\ chan_handlers_ok = true.
+Lemma C03_cfg_ok : cfg_ok chan_cfg /\ chan_receive_shape_ok = true /\ chan_local_receive_shape_ok = true /\ chan_local_close_order_ok = true /\ chan_setcb_handles_concurrent_close = true /\ chan_close_shape_ok = true /\ chan_handlers_ok = true.
 Proof. repeat split; reflexivity. Qed.
 Definition C03_C : cfg_ok chan_cfg := proj1 C03_cfg_ok.
 
@@ -27,6 +27,17 @@ Print Assumptions C03_eof_persists.
 Theorem C03_closed_is_unregistered : forall n ls id, rclosed (cs (crun chan_cfg ls (cinit n)) id) = true -> alive (cs (crun chan_cfg ls (cinit n)) id) = false.
 Proof. exact (receiveclosed_is_unregistered chan_cfg C03_C). Qed.
 Print Assumptions C03_closed_is_unregistered.
+
+(* a local close() is possible from the open and from the send-only state alike and completes the transition: the channel
+   reports closed (send is refused: fact), is unregistered, its callback is gone, its queue ends with an ENDMARKER *)
+Theorem C03_close_completes : forall c s id s', cstep c s (LClose id) = Some s' ->
+  closed (cs s' id) = true /\ rclosed (cs s' id) = true /\ alive (cs s' id) = false /\ cb (cs s' id) = None /\
+  (forall l, q (cs s id) = Some l -> q (cs s' id) = Some (l ++ [End])).
+Proof. exact close_closes. Qed.
+Print Assumptions C03_close_completes.
+Theorem C03_close_enabled : forall c s id, held (cs s id) = true -> closed (cs s id) = false -> exists s', cstep c s (LClose id) = Some s'.
+Proof. exact close_enabled. Qed.
+Print Assumptions C03_close_enabled.
 
 Example C03_witness : let s := crun chan_cfg [LNew 1; LPeerSend 1 7; LPeerEnd 1 KClose; LPeerSend 1 8; LRecv; LRecv; LRecv; LGet 0 1; LGet 0 1; LGet 1 1] (cinit 2) in
   rclosed (cs s 1) = true /\ q (cs s 1) = Some [] /\ holders 1 (thr s) = 1 /\ got s 1 = [7].
